@@ -90,6 +90,25 @@ def crowded_dipoles():
             dipole([0.97, 0.5, 0.5])]
 
 
+def water(o_pos, a=0.3, L=10.0):
+    """One SPC/Fw-like molecule (H, O, H) with the oxygen at o_pos, in the plane z = const."""
+    import math
+    b, ang = 1.012, 1.9764
+    h1 = [o_pos[0] + b * math.cos(a), o_pos[1] + b * math.sin(a), o_pos[2]]
+    h2 = [o_pos[0] + b * math.cos(a + ang), o_pos[1] + b * math.sin(a + ang), o_pos[2]]
+    pts = [h1, list(o_pos), h2]
+    centre = [sum(p[d] for p in pts) / 3.0 for d in range(3)]
+    ch = [{Q: 0.41, "oxygen_indicator": 0.0}, {Q: -0.82, "oxygen_indicator": 1.0}, {Q: 0.41, "oxygen_indicator": 0.0}]
+    return ([c % L for c in centre], [([x % L for x in p], c) for p, c in zip(pts, ch)])
+
+
+def water_layer_start():
+    """Two water molecules: the initially active oxygen sits just below the x-face of its oxygen cell (6 cells per
+    side, 2 neighbour layers), the other oxygen three cells further: it is in the single non-nearby layer and becomes
+    nearby when the active oxygen crosses the face."""
+    return [water([1.662, 5.0, 5.0]), water([6.5, 5.2, 5.1], a=2.0)]
+
+
 def hard_disk_lattice(n_side=2, L=12.836):
     """Harness replacement of the PDB input of hard_disk_dipoles*.ini (MDAnalysis is not installed): n_side^2 dipoles
     of bond length 1.0 on a square lattice, well separated (disk radius 0.476)."""
@@ -180,6 +199,8 @@ def families(tier, horizon=25):
         scaled(J + "dipoles/dipole_factors_inside_first.ini", 3, horizon=horizon),
         scaled(J + "dipoles/atom_factors.ini", 3, horizon=horizon),
         scaled(J + "water/coulomb_cell_veto_lj_cell_veto.ini", 3, horizon=horizon),
+        scaled(J + "water/coulomb_cell_veto_lj_cell_veto.ini", 2, start=water_layer_start(), horizon=horizon,
+               name="water/coulomb_cell_veto_lj_cell_veto+layer"),
         scaled(J + "water/coulomb_power_bounded_lj_cell_bounded.ini", 3, horizon=horizon),
         scaled("hard_disk_dipoles/hard_disk_dipoles.ini", 4, start=hard_disk_lattice(2), horizon=horizon,
                name="hard_di/hard_disk_dipoles+lat4"),
